@@ -261,13 +261,17 @@ def _traversals(ctx, mdl):
     g2 = Elem('g', {'transform': 'TD'}, [l0, l1, g3])
     g1 = Elem('g', {'transform': 'TB'}, [p0, p1, p2, g2])
     root = Elem('svg', {'transform': 'TA'}, [g1, r1])
-    M = {t: _sym_matrix(t) for t in ('TA', 'TB', 'TC', 'TD', 'TE', 'TF', 'TG')}
-
-    def ptr(it, a, k):
-        s = a[0]
-        if not s:
-            return ident()
-        return M[s]
+    # the transform attributes are REAL matrix(...) strings with symbolic numbers, read by the interpreted transform parser (no hook on
+    # parse_transform: the traversals may reach the parser through any helper)
+    TAGS = ('TA', 'TB', 'TC', 'TD', 'TE', 'TF', 'TG')
+    M = {}
+    for ti, t in enumerate(TAGS):
+        names = ['v%d' % (100 + 10 * ti + j) for j in range(6)]
+        v = [Rat.sym(nm) for nm in names]
+        M[t] = mat([[v[0], v[2], v[4]], [v[1], v[3], v[5]], [0, 0, 1]])
+        for e_ in _all(root):
+            if e_.attrib.get('transform') == t:
+                e_.attrib['transform'] = 'matrix(%s)' % ' '.join(names)
     expect = {'p1': M['TA'].dot(M['TB']).dot(M['TC']), 'l1': M['TA'].dot(M['TB']).dot(M['TD']), 'r1': M['TA'].dot(M['TE']),
               'p0': M['TA'].dot(M['TB']), 'p2': M['TA'].dot(M['TB']), 'l0': M['TA'].dot(M['TB']).dot(M['TD']).dot(M['TF']),
               'q1': M['TA'].dot(M['TB']).dot(M['TD']).dot(M['TG'])}
@@ -276,7 +280,7 @@ def _traversals(ctx, mdl):
     def th_doc(it):
         cache = {}
         applied = []
-        it.call_hooks['parser.parse_transform'] = ptr
+        it.ext_hooks['builtins.float'] = sym_float_hook
         it.call_hooks['parser.parse_path'] = lambda it2, a, k: Opaque('parsed')
         for c in ('path2pathd', 'ellipse2pathd', 'line2pathd', 'polyline2pathd', 'polygon2pathd', 'rect2pathd'):
             it.call_hooks['svg_to_paths.' + c] = lambda it2, a, k: 'D'
@@ -320,7 +324,7 @@ def _traversals(ctx, mdl):
         def th_grp(it, q=q, rec=rec):
             cache = {}
             applied = []
-            it.call_hooks['parser.parse_transform'] = ptr
+            it.ext_hooks['builtins.float'] = sym_float_hook
             it.call_hooks['parser.parse_path'] = lambda it2, a, k: Opaque('parsed')
             for c in ('path2pathd', 'ellipse2pathd', 'line2pathd', 'polyline2pathd', 'polygon2pathd', 'rect2pathd'):
                 it.call_hooks['svg_to_paths.' + c] = lambda it2, a, k: 'D'
@@ -362,7 +366,7 @@ def _traversals(ctx, mdl):
             events.append(('end', _wrap(it, e, cache)))
         walk(root)
         it.ext_hooks['xml.etree.ElementTree.iterparse'] = lambda it2, a, k: list(events)
-        it.call_hooks['parser.parse_transform'] = ptr
+        it.ext_hooks['builtins.float'] = sym_float_hook
         for c in ('path2pathd', 'ellipse2pathd', 'line2pathd', 'polyline2pathd', 'polygon2pathd', 'rect2pathd'):
             it.call_hooks['svg_to_paths.' + c] = lambda it2, a, k: 'D'
         doc = it.new_obj('svg_io_sax.SaxDocument')
